@@ -59,6 +59,22 @@ Proof.
     + intros [[|n] ->]; simpl; [now left|]. right. apply in_map. apply IH. now exists n.
 Qed.
 
+Lemma overlay_nil d : overlay [] d = d.
+Proof. induction d as [|[p c] r IH]; simpl; [reflexivity|]. now rewrite IH. Qed.
+
+Lemma lookup_overlay tl q d :
+  lookup q (overlay tl d) = match lookup q d with Some c => Some (visible tl q c) | None => None end.
+Proof.
+  induction d as [|[p c] r IH]; simpl; [reflexivity|].
+  destruct (Nat.eqb q p) eqn:E; [|assumption]. apply Nat.eqb_eq in E. now subst.
+Qed.
+
+Lemma crash_at_notails s : tails s = [] -> crash_at s = crash_disks (bufs s) (disk s).
+Proof.
+  intro H. unfold crash_at. rewrite H. rewrite <- (map_id (crash_disks (bufs s) (disk s))) at 2.
+  apply map_ext. apply overlay_nil.
+Qed.
+
 (* ---- run / exec / crash_states over concatenation ----------------------------------- *)
 
 Lemma run_app : forall a b s,
@@ -92,30 +108,30 @@ Variables tmp target : path.
 Hypothesis Hneq : tmp <> target.
 
 Definition quiet (d0 : fs) (s : st) : Prop :=
-  lookup target (disk s) = lookup target d0 /\ forall p b, In (p, b) (bufs s) -> p = tmp.
+  lookup target (disk s) = lookup target d0 /\ (forall p b, In (p, b) (bufs s) -> p = tmp) /\ tails s = [].
 
 Lemma quiet_safe d0 s c : quiet d0 s -> In c (crash_at s) -> lookup target c = lookup target d0.
 Proof.
-  intros [Hd Hb] Hin. unfold crash_at in Hin.
+  intros [Hd [Hb Ht]] Hin. rewrite (crash_at_notails s Ht) in Hin.
   rewrite (crash_disks_other target (bufs s) (disk s) c); [assumption| |assumption].
   intros p b Hp. rewrite (Hb p b Hp). assumption.
 Qed.
 
 Lemma writes_run rest : forall chunks D acc,
   exists mids,
-    run (map (Write tmp) chunks ++ rest) {| disk := D; bufs := [(tmp, acc)] |}
-      = mids ++ run rest {| disk := D; bufs := [(tmp, acc ++ concat chunks)] |}
-    /\ exec (map (Write tmp) chunks) {| disk := D; bufs := [(tmp, acc)] |}
-      = Some {| disk := D; bufs := [(tmp, acc ++ concat chunks)] |}
-    /\ Forall (fun s => disk s = D /\ exists b, bufs s = [(tmp, b)]) mids.
+    run (map (Write tmp) chunks ++ rest) {| disk := D; bufs := [(tmp, acc)]; tails := [] |}
+      = mids ++ run rest {| disk := D; bufs := [(tmp, acc ++ concat chunks)]; tails := [] |}
+    /\ exec (map (Write tmp) chunks) {| disk := D; bufs := [(tmp, acc)]; tails := [] |}
+      = Some {| disk := D; bufs := [(tmp, acc ++ concat chunks)]; tails := [] |}
+    /\ Forall (fun s => disk s = D /\ (exists b, bufs s = [(tmp, b)]) /\ tails s = []) mids.
 Proof.
   induction chunks as [|c chunks IH]; intros D acc.
   - exists []. simpl. rewrite app_nil_r. repeat split. constructor.
   - simpl. rewrite Nat.eqb_refl. unfold fset. simpl. rewrite Nat.eqb_refl.
     destruct (IH D (acc ++ c)) as (mids & Hrun & Hex & Hall).
-    exists ({| disk := D; bufs := [(tmp, acc ++ c)] |} :: mids).
+    exists ({| disk := D; bufs := [(tmp, acc ++ c)]; tails := [] |} :: mids).
     rewrite Hrun, Hex, <- app_assoc. repeat split.
-    constructor; [|assumption]. simpl. split; [reflexivity|]. now exists (acc ++ c).
+    constructor; [|assumption]. simpl. split; [reflexivity|]. split; [now exists (acc ++ c)|reflexivity].
 Qed.
 
 (* the complete run of one save from any state without open files *)
@@ -127,6 +143,7 @@ Lemma save_run chunks d0 :
     /\ lookup target (disk sf) = Some (concat chunks)
     /\ lookup tmp (disk sf) = None
     /\ bufs sf = []
+    /\ tails sf = []
     /\ (forall q, q <> tmp -> q <> target -> lookup q (disk sf) = lookup q d0).
 Proof.
   unfold save_ops, init.
@@ -149,27 +166,27 @@ Proof.
     by (unfold D2; rewrite (lookup_fappend_same tmp [] D1 new H1t); now rewrite app_nil_r).
   assert (H2o : forall q, tmp <> q -> lookup q D2 = lookup q d0)
     by (intros q N; unfold D2; rewrite lookup_fappend_other by assumption; now apply H1o).
-  set (sA := {| disk := D1; bufs := [(tmp, [])] |}).
-  set (sC := {| disk := D2; bufs := [] |}).
-  set (sF := {| disk := fset target new (fdel tmp D2); bufs := [] |}).
+  set (sA := {| disk := D1; bufs := [(tmp, [])]; tails := [] |}).
+  set (sC := {| disk := D2; bufs := []; tails := [] |}).
+  set (sF := {| disk := fset target new (fdel tmp D2); bufs := []; tails := [] |}).
   assert (Htail : run [Flush tmp; Fsync tmp; Close tmp; Rename tmp target]
-                      {| disk := D; bufs := [(tmp, new)] |} = [sA; sA; sC; sF]
+                      {| disk := D; bufs := [(tmp, new)]; tails := [] |} = [sA; sA; sC; sF]
                   /\ exec [Flush tmp; Fsync tmp; Close tmp; Rename tmp target]
-                      {| disk := D; bufs := [(tmp, new)] |} = Some sF).
+                      {| disk := D; bufs := [(tmp, new)]; tails := [] |} = Some sF).
   { simpl. rewrite !Nat.eqb_refl. unfold fset at 1 3. simpl. rewrite !Nat.eqb_refl. simpl.
     fold D1. fold sA. simpl. rewrite !Nat.eqb_refl. simpl. fold D2. rewrite H2t. simpl.
     fold sC. fold sF. split; reflexivity. }
   destruct Htail as [Htr Hte].
-  exists ({| disk := D; bufs := [(tmp, [])] |} :: mids ++ [sA; sA; sC]), sF.
+  exists ({| disk := D; bufs := [(tmp, [])]; tails := [] |} :: mids ++ [sA; sA; sC]), sF.
   repeat split.
   - simpl. fold D. unfold fset at 2. simpl.
     rewrite Hrun, Htr, <- app_assoc. reflexivity.
   - simpl. fold D. unfold fset. simpl.
     rewrite exec_app, Hex. exact Hte.
   - constructor.
-    + split; simpl; [now apply HDo|]. intros p b [E|[]]. now inversion E.
+    + split; simpl; [now apply HDo|]. split; [|reflexivity]. intros p b [E|[]]. now inversion E.
     + apply Forall_app. split.
-      * eapply Forall_impl; [|exact Hall]. intros s [Hd (b & Hb)]. split.
+      * eapply Forall_impl; [|exact Hall]. intros s [Hd [(b & Hb) Ht]]. split; [|split; [|assumption]].
         -- rewrite Hd. now apply HDo.
         -- rewrite Hb. intros p b' [E|[]]. now inversion E.
       * repeat constructor; simpl; try (now apply H1o); try (now apply H2o);
@@ -186,13 +203,13 @@ Theorem tmp_rename_atomic chunks d0 c :
   In c (crash_states (save_ops tmp target chunks) (init d0)) ->
   lookup target c = lookup target d0 \/ lookup target c = Some (concat chunks).
 Proof.
-  destruct (save_run chunks d0) as (mids & sf & Hrun & _ & Hq & Ht & _ & Hb & _).
+  destruct (save_run chunks d0) as (mids & sf & Hrun & _ & Hq & Ht & _ & Hb & Htl & _).
   unfold crash_states. rewrite Hrun. cbn [flat_map]. rewrite in_app_iff, flat_map_app, in_app_iff.
   intros [H|[H|H]].
-  - left. apply (quiet_safe d0 (init d0)); [|assumption]. split; [reflexivity|]. intros p b [].
+  - left. apply (quiet_safe d0 (init d0)); [|assumption]. split; [reflexivity|]. split; [|reflexivity]. intros p b [].
   - left. apply in_flat_map in H as (s & Hs & Hc).
     rewrite Forall_forall in Hq. exact (quiet_safe d0 s c (Hq s Hs) Hc).
-  - right. simpl in H. rewrite app_nil_r in H. unfold crash_at in H. rewrite Hb in H.
+  - right. simpl in H. rewrite app_nil_r in H. rewrite (crash_at_notails sf Htl) in H. rewrite Hb in H.
     simpl in H. destruct H as [<-|[]]. assumption.
 Qed.
 
@@ -201,9 +218,10 @@ Theorem save_completes chunks d0 :
     /\ lookup target (disk sf) = Some (concat chunks)
     /\ lookup tmp (disk sf) = None
     /\ bufs sf = []
+    /\ tails sf = []
     /\ (forall q, q <> tmp -> q <> target -> lookup q (disk sf) = lookup q d0).
 Proof.
-  destruct (save_run chunks d0) as (mids & sf & _ & Hex & _ & Ht & Htm & Hb & Ho).
+  destruct (save_run chunks d0) as (mids & sf & _ & Hex & _ & Ht & Htm & Hb & Htl & Ho).
   exists sf. repeat split; assumption.
 Qed.
 
@@ -215,12 +233,12 @@ Theorem repeated_saves : forall css d0 c,
   \/ exists chunks, In chunks css /\ lookup target c = Some (concat chunks).
 Proof.
   induction css as [|chunks css IH]; intros d0 c H.
-  - vm_compute in H.
+  - unfold crash_states in H. simpl in H. rewrite overlay_nil in H.
     destruct H as [<-|[]]. now left.
   - change (flat_map (save_ops tmp target) (chunks :: css)) with (save_ops tmp target chunks ++ flat_map (save_ops tmp target) css) in H. apply crash_states_app in H as [H|(s' & Hex & H)].
     + apply tmp_rename_atomic in H as [H|H]; [now left|].
       right. exists chunks. split; [now left|assumption].
-    + destruct (save_completes chunks d0) as (sf & Hex' & Ht & _ & Hb & _).
+    + destruct (save_completes chunks d0) as (sf & Hex' & Ht & _ & Hb & Htl & _).
       rewrite Hex in Hex'. inversion Hex'; subst s'.
       assert (E : sf = init (disk sf)) by (destruct sf; simpl in *; now subst).
       rewrite E in H. apply IH in H as [H|(ch & Hin & H)].
@@ -232,11 +250,21 @@ End TmpRename.
 
 (* ---- the in-place protocol ------------------------------------------------------------ *)
 
+Lemma crash_states_intro ops s0 s c :
+  In s (s0 :: run ops s0) -> tails s = [] -> In c (crash_disks (bufs s) (disk s)) ->
+  In c (crash_states ops s0).
+Proof.
+  intros Hs Ht Hc. unfold crash_states. apply in_flat_map. exists s. split; [assumption|].
+  now rewrite crash_at_notails.
+Qed.
+
 Theorem inplace_truncates target chunks d0 :
   In (fset target [] (fset target [] d0)) (crash_states (inplace_ops target chunks) (init d0)).
 Proof.
-  unfold crash_states, inplace_ops. simpl. right. left.
-  unfold fappend. rewrite lookup_fset_same. reflexivity.
+  apply (crash_states_intro _ _ {| disk := fset target [] d0; bufs := [(target, [])]; tails := [] |}).
+  - unfold inplace_ops. simpl. right. left. reflexivity.
+  - reflexivity.
+  - simpl. left. unfold fappend. rewrite lookup_fset_same. reflexivity.
 Qed.
 
 Theorem inplace_prefix target new d0 n :
@@ -244,12 +272,53 @@ Theorem inplace_prefix target new d0 n :
             /\ lookup target c = Some (firstn n new).
 Proof.
   exists (fappend target (firstn n new) (fset target [] d0)). split.
-  - unfold crash_states, inplace_ops. simpl. rewrite Nat.eqb_refl. simpl.
-    right. right. apply in_app_iff. left. unfold crash_at. simpl. rewrite Nat.eqb_refl. simpl.
-    apply in_flat_map. exists (firstn n new). split.
-    + apply prefixes_spec. now exists n.
-    + now left.
+  - apply (crash_states_intro _ _ {| disk := fset target [] d0; bufs := [(target, new)]; tails := [] |}).
+    + unfold inplace_ops. simpl. rewrite Nat.eqb_refl. simpl. right. right. left.
+      unfold fset. simpl. rewrite Nat.eqb_refl. reflexivity.
+    + reflexivity.
+    + simpl. rewrite ?app_nil_r. apply in_flat_map. exists (firstn n new). split.
+      * apply prefixes_spec. now exists n.
+      * now left.
   - rewrite (lookup_fappend_same target (firstn n new) (fset target [] d0) []).
     + reflexivity.
     + apply lookup_fset_same.
+Qed.
+
+(* ---- a temporary file that is not truncated ------------------------------------------------ *)
+
+Lemma exec_in_run : forall ops s sf, exec ops s = Some sf -> In sf (s :: run ops s).
+Proof.
+  induction ops as [|o ops IH]; intros s sf H; simpl in *.
+  - inversion H. now left.
+  - destruct (step o s) as [s'|]; [|discriminate]. right. now apply IH.
+Qed.
+
+Lemma final_in_crash_states ops s0 sf :
+  exec ops s0 = Some sf -> bufs sf = [] -> In (overlay (tails sf) (disk sf)) (crash_states ops s0).
+Proof.
+  intros E B. unfold crash_states. apply in_flat_map. exists sf. split; [now apply exec_in_run|].
+  unfold crash_at. rewrite B. simpl. now left.
+Qed.
+
+(* With a stale temporary file (left by an interrupted save) longer than the new content, the
+   save that opens it without truncation COMPLETES with the storage file holding the new
+   content followed by the tail of the stale one. *)
+Theorem notrunc_mixes tmp target new stale d0 :
+  tmp <> target -> lookup tmp d0 = Some stale ->
+  exists c, In c (crash_states (notrunc_ops tmp target [new]) (init d0))
+            /\ lookup target c = Some (new ++ skipn (List.length new) stale).
+Proof.
+  intros N S.
+  assert (E : exists D T, exec (notrunc_ops tmp target [new]) (init d0)
+              = Some {| disk := fset target (new ++ []) D; bufs := []; tails := T |}
+              /\ lookup target T = Some stale).
+  { unfold notrunc_ops, init. simpl. rewrite S. repeat (simpl; rewrite ?Nat.eqb_refl).
+    rewrite (lookup_fappend_same tmp [] (fappend tmp new (fset tmp [] d0)) ([] ++ new)).
+    2:{ apply lookup_fappend_same. apply lookup_fset_same. }
+    simpl. do 2 eexists. split; [reflexivity|]. apply lookup_fset_same. }
+  destruct E as (D & T & E & HT).
+  eexists. split.
+  - apply (final_in_crash_states _ _ _ E). reflexivity.
+  - cbn [tails disk]. rewrite lookup_overlay, lookup_fset_same. unfold visible. rewrite HT.
+    now rewrite app_nil_r.
 Qed.
